@@ -171,7 +171,7 @@ def run(sc):
                           tuple(sorted({(a["ast"] or {}).get("ft", "?") for a in addrs}))))
             if inv:
                 # a single invalid address per call: RequestError and nothing emitted
-                if outcome == "library" and type(res).__name__ == "RequestError":
+                if outcome == "library" and isinstance(res, harness.lib().RequestError):      # the class or a subclass of it
                     if slc.pccc_log:
                         hits.hit("C18", "slc.invalid", f"{k} of invalid address {inv[0]['text']!r} emitted "
                                  f"{len(slc.pccc_log)} PCCC command(s) before raising", form=inv[0]["invalid"], what="emitted", rw=k)
